@@ -7,8 +7,9 @@
 -/
 import Avra.Lemmas.Cond
 import Avra.Lemmas.Iter
+import Avra.Lemmas.Sel
 namespace Avra.Props.C08
-open Avra Avra.Model Avra.Spec Avra.Lemmas.Cond Avra.Lemmas.Iter
+open Avra Avra.Model Avra.Spec Avra.Lemmas.Cond Avra.Lemmas.Iter Avra.Lemmas.Sel
 
 /-- ways the model can fail on a line; `scope` marks a plain line outside the theorem's scope
     (a `.macro` or `.exit` line in a selected position changes what the following lines mean) -/
@@ -332,12 +333,210 @@ theorem conditional_selects (inc : IncludeFn) (cur : Str) (bs : Blocks) (hwf : b
       (runFrom inc cur s .newLine (bs.flatten ++ rest)) :=
   sim_blocks inc cur bs hwf s rest
 
-/-! "identical to the program with the unselected lines deleted": for a tree of plain lines only,
-    `Blocks.run` is the sequential assembly of those lines, so `conditional_selects` applied to
-    the tree and to the tree of its selected lines gives the metamorphic equality the property
-    names; that last step (tree of selected lines, with the states threaded) is exercised by the
-    correspondence run (build(src) = build(src with the unselected lines blanked)) and not yet
-    stated as a theorem. -/
+/-! ### "identical to the program with the unselected lines deleted" -/
+
+/-- evaluating the condition of a head line or of an `.elif` line does not change the state -/
+theorem mHolds_pure (inc : IncludeFn) (cur : Str) (l : Line)
+    (h : isDir l (fun d => isCondOpen d = true) ∨ isDir l (· = .elif)) (s s' : MSt) (b : Bool)
+    (hh : mHolds inc cur s l = .ok (s', b)) : s' = s := by
+  have hk : kindOf l = .open ∨ kindOf l = .elif := by
+    rcases h with h | h
+    · exact Or.inl (kind_open l h)
+    · exact Or.inr (kind_elif l h)
+  have hdir : ∃ d ops, parseLine l.2 = (some (.directiveLine none d ops), false) ∧
+      (d = .if ∨ d = .ifdef ∨ d = .ifndef ∨ d = .elif) ∧ (d = .elif → kindOf l = .elif) := by
+    rcases h with ⟨d, ops, hp, hd⟩ | ⟨d, ops, hp, hd⟩
+    · refine ⟨d, ops, hp, ?_, ?_⟩
+      · simp only [isCondOpen, decide_eq_true_eq] at hd
+        rcases hd with hd | hd | hd <;> simp [hd]
+      · intro he; subst he; simp [isCondOpen] at hd
+    · have hd' : d = _ := hd
+      subst hd'
+      exact ⟨_, ops, hp, by simp, fun _ => kind_elif l ⟨_, ops, hp, rfl⟩⟩
+  obtain ⟨d, ops, hp, hd, hke⟩ := hdir
+  unfold mHolds at hh
+  obtain ⟨st, incs⟩ := s
+  simp only at hh
+  have hstep : ∀ r, lineStep inc cur incs st l.1 l.2 (decide (kindOf l = .elif)) = .ok r → r.1 = st ∧ r.2.1 = incs := by
+    intro r hr
+    unfold lineStep at hr
+    simp only [hp] at hr
+    rcases hd with rfl | rfl | rfl | rfl
+    all_goals
+      first
+        | (simp only [hke rfl, decide_true] at hr)
+        | skip
+      unfold directiveParse at hr
+      simp at hr
+      repeat' split at hr
+      all_goals first
+        | (simp [lineErr] at hr; done)
+        | (simp only [Out.ok.injEq] at hr; subst hr; exact ⟨rfl, rfl⟩)
+  cases hl : lineStep inc cur incs st l.1 l.2 (decide (kindOf l = .elif)) with
+  | ok r =>
+    obtain ⟨st', incs', ni⟩ := r
+    have := hstep _ hl
+    rw [hl] at hh
+    cases ni <;> simp at hh <;> (obtain ⟨hs, _⟩ := hh; rw [← hs]; simp_all)
+  | error e => rw [hl] at hh; simp at hh
+  | panic p => rw [hl] at hh; simp at hh
+  | oof => rw [hl] at hh; simp at hh
+
+mutual
+theorem block_condLines_dir : ∀ (b : Block), b.wf → ∀ l ∈ b.condLines,
+    isDir l (fun d => isCondOpen d = true) ∨ isDir l (· = .elif)
+  | .plain _, _, l, hl => by simp [Block.condLines] at hl
+  | .cond hd body arms els endl, h, l, hl => by
+    obtain ⟨hhd, hbody, harms, hels, _⟩ := h
+    simp only [Block.condLines, List.mem_cons, List.mem_append] at hl
+    rcases hl with rfl | hl | hl | hl
+    · exact Or.inl hhd
+    · exact blocks_condLines_dir body hbody l hl
+    · exact arms_condLines_dir arms harms l hl
+    · exact else_condLines_dir els hels l hl
+theorem blocks_condLines_dir : ∀ (bs : Blocks), bs.wf → ∀ l ∈ bs.condLines,
+    isDir l (fun d => isCondOpen d = true) ∨ isDir l (· = .elif)
+  | .nil, _, l, hl => by simp [Blocks.condLines] at hl
+  | .cons b bs, h, l, hl => by
+    simp only [Blocks.condLines, List.mem_append] at hl
+    rcases hl with hl | hl
+    · exact block_condLines_dir b h.1 l hl
+    · exact blocks_condLines_dir bs h.2 l hl
+theorem arms_condLines_dir : ∀ (a : Arms), a.wf → ∀ l ∈ a.condLines,
+    isDir l (fun d => isCondOpen d = true) ∨ isDir l (· = .elif)
+  | .nil, _, l, hl => by simp [Arms.condLines] at hl
+  | .cons x body rest, h, l, hl => by
+    obtain ⟨hx, hbody, hrest⟩ := h
+    simp only [Arms.condLines, List.mem_cons, List.mem_append] at hl
+    rcases hl with rfl | hl | hl
+    · exact Or.inr hx
+    · exact blocks_condLines_dir body hbody l hl
+    · exact arms_condLines_dir rest hrest l hl
+theorem else_condLines_dir : ∀ (e : ElseArm), e.wf → ∀ l ∈ e.condLines,
+    isDir l (fun d => isCondOpen d = true) ∨ isDir l (· = .elif)
+  | .none, _, l, hl => by simp [ElseArm.condLines] at hl
+  | .some x body, h, l, hl => by
+    simp only [ElseArm.condLines] at hl
+    exact blocks_condLines_dir body h.2 l hl
+end
+
+/-- the lines a tree selects are plain lines of the tree -/
+def PlainOk (ls : List Line) : Prop := ∀ l ∈ ls, kindOf l = .other ∧ noOof l
+
+theorem PlainOk.append {a b : List Line} (ha : PlainOk a) (hb : PlainOk b) : PlainOk (a ++ b) := by
+  intro l hl; rcases List.mem_append.mp hl with h | h; exact ha l h; exact hb l h
+
+mutual
+theorem block_sel_plain {St F : Type} (exec : St → Line → Res St F) (holds : St → Line → Res (St × Bool) F) :
+    ∀ (b : Block), b.wf → ∀ (s s' : St) (ls : List Line), b.sel exec holds s = .ok (s', ls) → PlainOk ls
+  | .plain l, h, s, s', ls, hs => by
+    simp only [Block.sel] at hs
+    cases he : exec s l with
+    | ok st' =>
+      rw [he] at hs; simp only [Res.ok.injEq, Prod.mk.injEq] at hs
+      rw [← hs.2]; intro x hx; simp at hx; subst hx; exact h
+    | fail e => rw [he] at hs; cases hs
+  | .cond hd body arms els endl, h, s, s', ls, hs => by
+    obtain ⟨_, hbody, harms, hels, _⟩ := h
+    simp only [Block.sel] at hs
+    cases hh : holds s hd with
+    | fail e => rw [hh] at hs; cases hs
+    | ok v =>
+      obtain ⟨st, t⟩ := v
+      rw [hh] at hs
+      cases t with
+      | true => exact blocks_sel_plain exec holds body hbody st s' ls hs
+      | false =>
+        simp only at hs
+        cases ha : arms.sel exec holds st with
+        | fail e => rw [ha] at hs; cases hs
+        | ok w =>
+          obtain ⟨st2, l2, t2⟩ := w
+          rw [ha] at hs
+          cases t2 with
+          | true =>
+            simp only [Res.ok.injEq, Prod.mk.injEq] at hs
+            rw [← hs.2]; exact arms_sel_plain exec holds arms harms st st2 l2 true ha
+          | false => exact else_sel_plain exec holds els hels st2 s' ls hs
+theorem blocks_sel_plain {St F : Type} (exec : St → Line → Res St F) (holds : St → Line → Res (St × Bool) F) :
+    ∀ (bs : Blocks), bs.wf → ∀ (s s' : St) (ls : List Line), bs.sel exec holds s = .ok (s', ls) → PlainOk ls
+  | .nil, _, s, s', ls, hs => by
+    simp only [Blocks.sel, Res.ok.injEq, Prod.mk.injEq] at hs
+    rw [← hs.2]; intro x hx; cases hx
+  | .cons b bs, h, s, s', ls, hs => by
+    simp only [Blocks.sel] at hs
+    cases hb : b.sel exec holds s with
+    | fail e => rw [hb] at hs; cases hs
+    | ok v =>
+      obtain ⟨st, l1⟩ := v
+      rw [hb] at hs
+      simp only at hs
+      cases hbs : bs.sel exec holds st with
+      | fail e => rw [hbs] at hs; cases hs
+      | ok w =>
+        obtain ⟨st2, l2⟩ := w
+        rw [hbs] at hs
+        simp only [Res.ok.injEq, Prod.mk.injEq] at hs
+        rw [← hs.2]
+        exact (block_sel_plain exec holds b h.1 s st l1 hb).append (blocks_sel_plain exec holds bs h.2 st st2 l2 hbs)
+theorem arms_sel_plain {St F : Type} (exec : St → Line → Res St F) (holds : St → Line → Res (St × Bool) F) :
+    ∀ (a : Arms), a.wf → ∀ (s s' : St) (ls : List Line) (t : Bool), a.sel exec holds s = .ok (s', ls, t) → PlainOk ls
+  | .nil, _, s, s', ls, t, hs => by
+    simp only [Arms.sel, Res.ok.injEq, Prod.mk.injEq] at hs
+    rw [← hs.2.1]; intro x hx; cases hx
+  | .cons x body rest, h, s, s', ls, t, hs => by
+    obtain ⟨_, hbody, hrest⟩ := h
+    simp only [Arms.sel] at hs
+    cases hh : holds s x with
+    | fail e => rw [hh] at hs; cases hs
+    | ok v =>
+      obtain ⟨st, tt⟩ := v
+      rw [hh] at hs
+      cases tt with
+      | true =>
+        simp only at hs
+        cases hb : body.sel exec holds st with
+        | fail e => rw [hb] at hs; cases hs
+        | ok w =>
+          obtain ⟨st2, l2⟩ := w
+          rw [hb] at hs
+          simp only [Res.ok.injEq, Prod.mk.injEq] at hs
+          rw [← hs.2.1]; exact blocks_sel_plain exec holds body hbody st st2 l2 hb
+      | false => exact arms_sel_plain exec holds rest hrest st s' ls t hs
+theorem else_sel_plain {St F : Type} (exec : St → Line → Res St F) (holds : St → Line → Res (St × Bool) F) :
+    ∀ (e : ElseArm), e.wf → ∀ (s s' : St) (ls : List Line), e.sel exec holds s = .ok (s', ls) → PlainOk ls
+  | .none, _, s, s', ls, hs => by
+    simp only [ElseArm.sel, Res.ok.injEq, Prod.mk.injEq] at hs
+    rw [← hs.2]; intro x hx; cases hx
+  | .some x body, h, s, s', ls, hs => by
+    simp only [ElseArm.sel] at hs
+    exact blocks_sel_plain exec holds body h.2 s s' ls hs
+end
+
+theorem plainBlocks_wf : ∀ (ls : List Line), PlainOk ls → (plainBlocks ls).wf
+  | [], _ => trivial
+  | l :: ls, h => ⟨h l (by simp), plainBlocks_wf ls (fun x hx => h x (by simp [hx]))⟩
+
+/-- **C08, second half.**  When the program assembles, it assembles to the same state as the
+    program with every unselected line — and every `.if/.ifdef/.ifndef/.elif/.else/.endif` line —
+    DELETED: `ls` are exactly the plain lines of the selected branches, in order (`Blocks.sel`),
+    and running the loop over the whole text equals running it over `ls` alone.  For every
+    well-formed tree, every nesting, every state, whatever follows (`rest`). -/
+theorem unselected_deleted (inc : IncludeFn) (cur : Str) (bs : Blocks) (hwf : bs.wf) (s s' : MSt)
+    (ls rest : List Line) (hsel : bs.sel (mExec inc cur) (mHolds inc cur) s = .ok (s', ls)) :
+    runFrom inc cur s .newLine (bs.flatten ++ rest) = runFrom inc cur s .newLine (ls ++ rest) := by
+  have hrun := blocks_sel_run (mExec inc cur) (mHolds inc cur) bs s s' ls hsel
+  have h1 := conditional_selects inc cur bs hwf s rest
+  rw [hrun] at h1
+  have hpure : PureConds (mHolds inc cur) bs.condLines := by
+    intro l hl st st' b hh
+    exact mHolds_pure inc cur l (blocks_condLines_dir bs hwf l hl) st st' b hh
+  have hlines := blocks_sel_lines (mExec inc cur) (mHolds inc cur) bs hpure s s' ls hsel
+  have hplain := blocks_sel_plain (mExec inc cur) (mHolds inc cur) bs hwf s s' ls hsel
+  have h2 := conditional_selects inc cur (plainBlocks ls) (plainBlocks_wf ls hplain) s rest
+  rw [plain_run, hlines, plain_flatten] at h2
+  simp only [after] at h1 h2
+  rw [h1, h2]
 
 /-! non-vacuity: a concrete tree with garbage in the unselected branch -/
 def exIf : Line := (0, ".if 0".toList)
